@@ -9,10 +9,9 @@
    precedence).  They are fixed in /repo (known_findings.d/C14.json, status "fixed"); their
    witnesses stay in the corpus and must pass.
 
-   class  mechanism in /repo (confirmed on the real code)
-    13    arithmetic over NULL evaluates to `None` instead of Value::Null (eval_arithmetic_op) and
-          the BETWEEN arm of eval_tv propagates a `None` bound with `?`: x [NOT] BETWEEN (NULL + 1)
-          AND h is UNKNOWN even when x > h already makes it FALSE (TRUE for NOT BETWEEN)
+   Class 13 (a BETWEEN bound that is arithmetic over NULL made the predicate UNKNOWN) was found on
+   the repaired tree and is fixed as well (5b60fb5).  No class is open: known_class is 0 on the
+   whole modelled language and
     99    outside the modelled expression language (no finding; never generated): an integer
           literal outside i64, a non-finite float literal, an empty IN list, a boolean cell *)
 From Coq Require Import ZArith List Bool.
@@ -58,27 +57,8 @@ Definition plain_value (v : value) : bool := match v with VBool _ => false | _ =
 Definition plain_row (r : row) : bool := forallb plain_value r.
 Definition plain_table (t : table) : bool := forallb plain_row t.
 
-(* ---------------------------------------------------------------- class 13 *)
-Definition is_arith (e : expr) : bool := match e with EArith _ _ _ => true | _ => false end.
-Definition null_arith (e : expr) (r : row) : bool := is_arith e && is_vnull (eval e r).
-Fixpoint cls13 (e : expr) (r : row) : Z :=
-  match e with
-  | ECol _ | ELit _ => 0
-  | EArith _ a b | ECmp _ a b | EAnd a b | EOr a b | ELike _ a b => first_nz (cls13 a r) (cls13 b r)
-  | ENot a | EIsNull _ a => cls13 a r
-  | EIn _ a l =>
-      first_nz (cls13 a r)
-        ((fix go (l : list expr) : Z := match l with [] => 0 | i :: l' => first_nz (cls13 i r) (go l') end) l)
-  | EBetween _ a lo hi =>
-      first_nz (if null_arith lo r || null_arith hi r then 13 else 0)
-        (first_nz (cls13 a r) (first_nz (cls13 lo r) (cls13 hi r)))
-  end.
-
-Fixpoint first_row (f : row -> Z) (t : table) : Z :=
-  match t with [] => 0 | r :: t' => first_nz (f r) (first_row f t') end.
-
 (* known_class of a query (either shape, either printing style) *)
 Definition cls_query (e : expr) (t : table) : Z :=
-  if wf_expr e && plain_table t then first_row (cls13 e) t else 99.
+  if wf_expr e && plain_table t then 0 else 99.
 Definition cls_where (sty : Z) (e : expr) (t : table) : Z := cls_query e t.
 Definition cls_select (sty : Z) (e : expr) (t : table) : Z := cls_query e t.
